@@ -253,6 +253,7 @@ func RunCheck(p Property, opt Options) int {
 	firstByKey := map[string]episodeOut{}
 	countByKey := map[string]int{}
 	inconclusive := 0
+	harness := 0
 	for eo := range outs {
 		ev.add(eo)
 		if eo.run.Result == nil || eo.run.TimedOut || (eo.run.Result != nil && (eo.run.Result.Err != "" || eo.run.Result.Budget != "")) {
@@ -268,6 +269,14 @@ func RunCheck(p Property, opt Options) int {
 			}
 		}
 		for _, v := range eo.viols {
+			if strings.HasPrefix(v.Rule, "HARNESS.") {
+				// the oracle could not observe what it needs (a seam was bypassed): never a verdict
+				harness++
+				if harness <= 3 {
+					logf("HARNESS-TROUBLE episode=%d %s %s: %s", eo.i, v.Rule, v.Witness, v.Detail)
+				}
+				continue
+			}
 			k := v.Key()
 			countByKey[k]++
 			if old, ok := firstByKey[k]; !ok || eo.i < old.i {
@@ -346,6 +355,10 @@ func RunCheck(p Property, opt Options) int {
 	}
 	if n := atomic.LoadInt64(&illFormed); n > 0 && exit == 0 {
 		logf("HARNESS-TROUBLE: %d generated episodes are not well-formed by the property's own guard", n)
+		exit = 2
+	}
+	if harness > 0 && exit == 0 {
+		logf("HARNESS-TROUBLE: in %d episodes an oracle could not observe what it needs", harness)
 		exit = 2
 	}
 	if inconclusive > 0 && exit == 0 {
